@@ -7,6 +7,11 @@ import (
 )
 
 func (t *Teamserver) ServiceAgent(MagicValue int) agent.ServiceAgentInterface {
+	// no Service block in the profile: no 3rd party agents
+	if t.Service == nil {
+		return nil
+	}
+
 	for _, agentService := range t.Service.Agents {
 		if agentService.MagicValue == fmt.Sprintf("0x%x", MagicValue) {
 			return agentService
@@ -18,6 +23,11 @@ func (t *Teamserver) ServiceAgent(MagicValue int) agent.ServiceAgentInterface {
 }
 
 func (t *Teamserver) ServiceAgentExist(MagicValue int) bool {
+	// no Service block in the profile: no 3rd party agents
+	if t.Service == nil {
+		return false
+	}
+
 	for _, agentService := range t.Service.Agents {
 		if agentService.MagicValue == fmt.Sprintf("0x%x", MagicValue) {
 			return true
